@@ -6,8 +6,6 @@ INVARIANT TRightPool
 INVARIANT TNoSibling
 INVARIANT TFloorAligned
 INVARIANT TNoError
-INVARIANT ObsCalls
-INVARIANT ObsModels
 INVARIANT ObsAssigned
 INVARIANT ObsExactlyOne
 INVARIANT ObsRightPool
